@@ -255,14 +255,19 @@ def single_entry(chk):
                                                      seed_data=seed, n_rep=n_rep, num_data=num_data, schedules="all",
                                                      eps_proj_physical=1e-5, eps_truncate_imaginary_part=1e-5)
         qt = sim.generate_qtomography(ss, para=True, init_with_seed=False)
-        arg = {"int": seed, "generator": Generator(MT19937(seed)), "setting": None}[seed_kind]
+        if seed_kind == "npint_setting":
+            ss = sim.StandardQTomographySimulationSetting(name="single", true_object=true, tester_objects=testers, estimator=LinearEstimator(),
+                                                         seed_data=np.int64(seed), n_rep=n_rep, num_data=num_data, schedules="all",
+                                                         eps_proj_physical=1e-5, eps_truncate_imaginary_part=1e-5)
+        # an integer seed is an integer seed whether it is a Python int or a NumPy integer (e.g. read from an array)
+        arg = {"int": seed, "npint": np.int64(seed), "generator": Generator(MT19937(seed)), "setting": None, "npint_setting": None}[seed_kind]
         with simrun.quiet():
             r = sim.execute_simulation(qt, ss, seed_or_generator=arg)
         data = [np.concatenate([np.concatenate([[float(e[0])], np.asarray(e[1], dtype=float).ravel()]) for step in seq for e in step]) for seq in r.empi_dists_sequences]
         est = [simrun.flat(list(er.estimated_var_sequence)) for er in r.estimation_results]
         return qt, data, est
     for seed in (7, 123456):
-        for kind in ("int", "generator", "setting"):
+        for kind in ("int", "generator", "setting", "npint", "npint_setting"):
             chk.count(1, ("single", kind, seed))
             key = "single:%s" % kind
             try:
